@@ -626,6 +626,8 @@ func serial(j *job, perm []int) string {
 	r.free.Store(true)
 	for _, ti := range perm {
 		r.outcome[ti] = r.body(ti)
+		// in the serial reference a command is over — with everything it started — before the next one begins
+		r.db.VerifCacheQuiesce(ts(3 * time.Second))
 	}
 	return r.result()
 }
